@@ -54,6 +54,10 @@ def gen_fmt(rng):
         ls.append(Line(d0 + datetime.timedelta(days=rng.randint(0, 300)), t, "DIVIDEND", None, rng.choice(["12.345", "0.005", "100"]), rng.choice(["GBP", "USD"]), rng.choice([None, "1.115"])))
     if rng.random() < 0.3:
         ls.append(Line(d0 + datetime.timedelta(days=10), t, "BUY", "0.000001", "123456.125", rng.choice(["GBP", "USD", "EUR"]), "0.5", "USD"))
+    if rng.random() < 0.35:     # a second line of the same kind, security and date (another fill, another dividend)
+        l = rng.choice(ls)
+        if l.kind in ("BUY", "SELL"): ls.append(l.copy(v=rng.choice(gen.PRICE)) if l.kind == "BUY" else l.copy(a="0.5", v=rng.choice(gen.PRICE)))
+        elif l.kind == "DIVIDEND": ls.append(l.copy(v="3.21"))
     return ls
 
 # ---------------- the figure list of a report, from its full-precision values ----------------
@@ -275,6 +279,35 @@ def check_pdf(rep, pdf, txshow, fmt):
         if abs(F(r.split()[0]) - F(d["qty"])) > F(1, 2 * 10**6): bad.append(("pdf disposal quantity", r, d["qty"]))
     return bad, mid
 
+ROW_KINDS = ("BUY", "SELL", "DIVIDEND", "CAPRETURN", "ACCUMULATION", "SPLIT", "UNSPLIT")
+def check_pdf_rows(runs, txshow):
+    """the PDF's Transactions and Asset Events tables list exactly the transactions of the report: the multiset of
+    (date, type, security, quantity-or-ratio) rows read from the text runs against the transactions themselves"""
+    got = []
+    for i in range(1, len(runs) - 2):
+        if runs[i] in ROW_KINDS and re.fullmatch(r"\d\d/\d\d/\d{4}", runs[i - 1]):
+            got.append((runs[i - 1], runs[i], runs[i + 1], runs[i + 2]))
+    exp = []
+    for t in txshow:
+        f = t.split("|")
+        exp.append((datetime.date.fromisoformat(f[0]).strftime("%d/%m/%Y"), f[2], f[1], "-" if f[2] == "DIVIDEND" else f[3]))
+    def qv(q):
+        try: return F(q)
+        except Exception: return None
+    a = [(r[0], r[1], r[2].upper(), r[3]) for r in got]; b = [(r[0], r[1], r[2].upper(), r[3]) for r in exp]
+    left = list(a); miss = []
+    for e in b:
+        hit = None
+        for g in left:
+            if g[:3] != e[:3]: continue
+            x, y = qv(g[3]), qv(e[3])
+            if (x is None or y is None) and g[3] == e[3]: hit = g; break
+            if x is not None and y is not None and abs(x - y) <= F(1, 2 * 10**6): hit = g; break     # the PDF shows six decimal places
+        if hit is None: miss.append(e)
+        else: left.remove(hit)
+    if not miss and not left: return []
+    return [("pdf transaction rows", "%d rows, e.g. extra %s" % (len(a), left[:2]), "%d rows, e.g. missing %s" % (len(b), miss[:2]))]
+
 def k_c17(ctx):
     rng = ctx.rng
     n = ctx.n(300, 5000); npdf = ctx.n(40, 600)
@@ -331,6 +364,7 @@ def k_c17(ctx):
             if not p or not p.get("ok"):
                 ctx.violation("PDF front-end fails where the text front-end succeeds: %s" % (p and p.get("error")), {"input_dsl": ledger.render(cases[cid]), "code": p}, found_input=True); continue
             bad, mid = check_pdf(res[cid]["report"], p, res[cid].get("transactions", []), fmt)
+            bad += check_pdf_rows(p["runs"], res[cid].get("transactions", []))
             ctx.count("pdf_reports", 1)
             if mid:
                 kt = load_known_text("C17", "kf_pdf_binary_midpoint")
